@@ -76,6 +76,10 @@ func (c *FnCtx) declareVar(st *State, obj types.Object, v Val) {
 		t := obj.Type()
 		a := c.allocate(st, "64")
 		c.storeTo(&Env{st: st}, a, t, v.T)
+		if isOpaqueStruct(t) && v.T == c.zero(t).T {
+			// `var x T` of an external struct type: its ghost state starts as that of a zero T
+			c.initOpaque(&Env{st: st}, a, t)
+		}
 		st.vars[obj] = Val{T: a, Typ: types.NewPointer(t)}
 		return
 	}
@@ -99,6 +103,12 @@ func (c *FnCtx) pureResult(st *State, fn *types.Func, ct *Contract, recv *Val, a
 			if _, isTP := types.Unalias(sig.Params().At(k).Type()).(*types.TypeParam); !isTP {
 				t = sig.Params().At(k).Type()
 			}
+		}
+		if b, ok := c.subst(orInt(t)).Underlying().(*types.Basic); ok && b.Info()&types.IsString != 0 && c.sortOf(orInt(t)) == "Str" {
+			// a pure function of a string is a function of its content (equal strings, equal results)
+			terms = append(terms, c.strID(a.T))
+			sorts = append(sorts, "Int")
+			continue
 		}
 		terms = append(terms, a.T)
 		sorts = append(sorts, c.sortOf(orInt(t)))
